@@ -330,9 +330,73 @@ pub fn describe_tree(model_or_req: &str) -> String {
     model_or_req.chars().take(200).collect()
 }
 
+/// every name and alias registered by the real SDK (read from the real registry at run time)
+pub fn registry_names() -> Vec<String> {
+    let ctx = crate::sdkenv::sdk_context();
+    let mut v: Vec<String> = ctx.commands.commands.keys().cloned().collect();
+    v.extend(ctx.commands.aliases.keys().cloned());
+    v.sort();
+    v.dedup();
+    v
+}
+
+/// Keyword-classification probes (fixed cases): for every registered command name / alias N and
+/// each of the four block scanners (if, while, for-in, function definition), flat line
+/// sequences in which N stands in a region the scanner has to skip — directly inside the
+/// block, inside a nested block of another kind, inside a nested block of the same kind — and
+/// `emit` lines after each of several generic `end`s show where the scanner decided the block
+/// ended and which `else` it picked.  The Lean goto machine (its scanners driven by the
+/// keyword tables of Generated/FlowTables.lean) and the real interpreter must agree on every
+/// one: a keyword table that differs between the code and the model in ANY registered name is
+/// exposed without relying on the source shape of the code that builds the tables.
+pub fn keyword_probes() -> Vec<Case> {
+    let names = registry_names();
+    let e = |s: &str| s.to_string();
+    // opener lines per scanner: (tag, opener line, an opener of another kind, same kind again)
+    let openers: Vec<(&str, Vec<String>, Vec<String>, Vec<String>)> = vec![
+        ("if", line(None, "if", &[e("false")]), line(None, "while", &[e("false")]), line(None, "if", &[e("false")])),
+        ("while", line(None, "while", &[e("false")]), line(None, "if", &[e("false")]), line(None, "while", &[e("false")])),
+        ("for", line(None, "for", &[e("x"), e("in"), e("${nohandle}")]), line(None, "if", &[e("false")]), line(None, "for", &[e("y"), e("in"), e("${nohandle}")])),
+        ("fn", line(None, "fn", &[e("probe_fn")]), line(None, "while", &[e("false")]), line(None, "if", &[e("false")])),
+    ];
+    let emit = |t: &str| line(None, "emit", &[e(t)]);
+    let end = || line(None, "end", &[]);
+    let mut out = vec![];
+    for n in &names {
+        if n == "emit" || n == "inc" || n == "lt" {
+            continue;
+        }
+        for (tag, open, other, same) in &openers {
+            let nl = line(None, n, &[]);
+            let tail: Vec<Vec<String>> = vec![emit("a"), end(), emit("b"), end(), emit("c"), end(), emit("d")];
+            let shapes: Vec<Vec<Vec<String>>> = vec![
+                // directly inside the block
+                [vec![open.clone(), nl.clone()], tail.clone()].concat(),
+                // inside a nested block of another kind
+                [vec![open.clone(), other.clone(), nl.clone()], tail.clone()].concat(),
+                // inside a nested block of the same kind (for `fn`: another block kind again)
+                [vec![open.clone(), same.clone(), nl.clone()], tail.clone()].concat(),
+                // followed by an `else`: which block does it belong to?
+                [vec![open.clone(), nl.clone(), emit("p"), line(None, "else", &[]), emit("q")], tail.clone()].concat(),
+            ];
+            for (k, sh) in shapes.iter().enumerate() {
+                let mut toks = vec![format!("B{}", sh.len())];
+                for l in sh {
+                    toks.extend(l.clone());
+                }
+                out.push(Case { req: format!("c04raw {} - 400", toks.join(";")), in_domain: false, nontrivial: false, tags: vec![if k == 0 { "kwprobe" } else { "kwprobe-nested" }, tag] });
+            }
+        }
+    }
+    out
+}
+
 impl Prop for C04Prop {
     fn id(&self) -> &'static str {
         "C04"
+    }
+    fn fixed_cases(&self, _tier: Tier) -> Vec<Case> {
+        keyword_probes()
     }
     fn rule(&self) -> &'static str {
         "random well-nested program trees (depth <= 4, <= ~60 lines): if/elseif/else chains (0-2 elseif, optional else), counter-driven while loops (0-3 iterations, incl. zero), for-in over array/range handles (0-3 elements), straight-line set/inc/emit commands; every keyword spelled by a random alias or the full command name, blocks closed by the generic 'end' or the specific end command; conditions as values, boolean expressions with groups, commands (equals, lt) and negated commands/values; random truthy/falsy initial flags. The Lean specification flattens the tree to script text and runs the tree-walking interpreter (oracle); the real interpreter runs the same text. Observed: emit trace with argument values, final variables (handles canonicalised). Non-trivial = nesting depth >= 2 and at least one loop; distinct = distinct request."
@@ -367,6 +431,11 @@ impl Prop for C04Prop {
         imp.split(' ').nth(1).map(|s| s.trim_start_matches("M:").split('_').next().unwrap_or("").to_string()).unwrap_or("odd".into())
     }
     fn shrink(&self, req: &str) -> Vec<String> {
+        if req.starts_with("c04raw ") {
+            // keyword probes are minimal by construction; dropping lines would execute the probed
+            // command, which the model does not implement
+            return vec![];
+        }
         shrink_tree(req)
     }
     fn describe(&self, req: &str) -> String {
